@@ -51,7 +51,7 @@ def case_strategy(draw, tier="quick", kinds=KINDS, first=ASYNC, max_nodes=6, max
                                     feedback=False, force_first=draw(st.sampled_from(first))))
     spec = draw(with_sinks(spec))
     sinks = [i for i, nd in enumerate(spec["nodes"]) if nd["k"] == "sink"]
-    cm = {str(i): draw(st.sampled_from(["sync", "fut", "coro", "fut"])) for i in sinks}
+    cm = {str(i): draw(st.sampled_from(["sync", "fut", "coro", "fut", "aw"])) for i in sinks}
     acts = draw(schedule.actions_strategy(spec, max_actions=max_actions))
     return {"spec": spec, "cmodes": cm, "actions": acts}
 
